@@ -10,7 +10,9 @@ MTs == {"equals", "contains", "starts-with", "ends-with", "", "bogus"}
 Texts1 == IF Big THEN {<< >>, <<"a">>, <<"a", "b">>, <<"b">>} ELSE {<< >>, <<"a">>, <<"a", "b">>}
 TMs1 == [text : Texts1, neg : BOOLEAN, mt : MTs]
 \* (M1) one prop-filter, up to two text-matches, every enumeration value including invalid ones
+\* is-not-defined together with text-matches is expressible through the API (not on the wire): present => does not hold
 PF1 == [name : {"N1"}, test : Tests, isnd : {TRUE}, tms : {<< >>}] \cup [name : {"N1"}, test : Tests, isnd : {FALSE}, tms : Seq02(TMs1)]
+       \cup [name : {"N1"}, test : {"anyof", "allof", ""}, isnd : {TRUE}, tms : {<<t>> : t \in [text : {<<"a">>}, neg : BOOLEAN, mt : {"contains", "equals", ""}]}]
 Q1 == [test : Tests, filters : {<<p>> : p \in PF1}, limit : {0}, props : {<< >>}, allprop : {FALSE}]
 Vals1 == {<<"a">>, <<"a", "b">>, <<"b", "a">>, <<"b">>, << >>}
 BaseCard == <<[n |-> "VERSION", v |-> <<"3.0">>], [n |-> "FN", v |-> <<"f">>]>>
